@@ -187,6 +187,18 @@ func allLeaves() []*leaf {
 				}
 				return no
 			})},
+		{name: "titleReLen", family: "P", // a StringConstraint with two fields set: all non-zero ones must match
+			build: func(w *W) *search.Constraint {
+				return pnC(search.PermanodeConstraint{Attr: "title", ValueMatches: &search.StringConstraint{Regexp: "^t", ByteLength: &search.IntConstraint{Min: 4}}})
+			},
+			model: pnModel(func(w *W, b *mblob) tri {
+				for _, v := range b.attrsAt(time.Time{})["title"] {
+					if strings.HasPrefix(v, "t") && len(v) >= 4 {
+						return yes
+					}
+				}
+				return no
+			})},
 		{name: "tagNum2", family: "P",
 			build: func(w *W) *search.Constraint {
 				return pnC(search.PermanodeConstraint{Attr: "tag", NumValue: &search.IntConstraint{Min: 2}})
